@@ -8,6 +8,26 @@ def hook_commits():
     return [l.split()[0] for l in out.splitlines() if l.split(" ", 1)[1].startswith("verif hook")][::-1]
 
 CHECKS = {
+ "C02": dict(
+  category="exploration", design_ref="DESIGN.md 4/C02",
+  technique="exhaustive enumeration of seed sets over chunk-word alphabets on the real clone flow; reference clone model",
+  text="Bounded exhaustive: for every source of <=3/4 words and every seed set (all single seeds of <=3/4 letters, all ordered pairs of <=2-letter seeds, empty, seed=source) over letters {source words, junk words, half word, size-colliding junk}, per chunker universe (FixedSize, RollSum, BuzHash; raw and compressed) and hash length 64/8/4, the real library clone flow runs on in-memory devices; oracle: the run succeeds and the output equals the source.",
+  note="Library-level flow re-assembled from bitar's public API (mirror of clone_archive); CLI wiring is covered by the CLI legs. A1: no truncated-hash collision inside a scenario."),
+ "C03": dict(
+  category="exploration", design_ref="DESIGN.md 4/C03",
+  technique="exhaustive enumeration of (prior layout, target) pairs on the real planner+executor over an instrumented device; invariant on the operation log",
+  text="Bounded exhaustive: L0 = all pairs (prior layout, target) with <=4 (quick) / <=5 (thorough) chunks over 3 identities + junk + gap and all 27 size assignments from {1,2,3} through the real strip/reorder_ops/reorder_in_place/feed (every overlap, chain, cycle and duplicate pattern at that scope); L1 = full library flow with the real chunker scanning the prior output over word universes. Oracles: no panic, success, output == source, and the first read of every moved chunk returns the prior bytes (no reusable chunk destroyed before copied or buffered).",
+  note="Chunk counts above the bound and contents outside the alphabets not covered; A1."),
+ "C06": dict(
+  category="exploration", design_ref="DESIGN.md 4/C06",
+  technique="exhaustive scenario enumeration with a recording ArchiveReader; reference clone model of the expected fetch set",
+  text="Bounded exhaustive over the C02/C03 scenario families (prior outputs used as seed, existing outputs not used as seed, seeds, combinations): the multiset of chunk ranges requested from the archive must equal the stored ranges of (source chunks) minus (chunks the reference chunker finds in seeds / prior output); all other reads lie inside the header.",
+  note="Reference chunker defines 'found by scanning'; scenarios on which it disagrees with the real chunker (F5 input class) are counted, not judged."),
+ "C13": dict(
+  category="exploration", design_ref="DESIGN.md 4/C13",
+  technique="exhaustive scenario enumeration observing the write log of an instrumented in-memory output",
+  text="Bounded exhaustive over the C02/C03 scenario families plus the L0 planner/executor enumeration: every write must be one source chunk's bytes at one of its source offsets, each location at most once, never a location the scan found in place, never at or beyond the source length.",
+  note="Observation at poll_write granularity of a device that accepts whole buffers; A1."),
  "C09": dict(
   category="model_checking", design_ref="DESIGN.md 4/C09",
   technique="explicit-state BFS over reader answers on the real StreamingChunker (state-fingerprint merging) + exhaustive small-alphabet enumeration against a reference chunker",
@@ -21,6 +41,9 @@ CHECKS = {
 }
 
 NOT_APPLICABLE = []
+
+def all_props():
+    return [json.loads(l)["id"] for l in open(os.path.join(VERIF, "properties.jsonl")) if l.strip()]
 
 def main():
     checks = []
@@ -52,7 +75,9 @@ def main():
              "kind_free_text": "Rust harness linking the real bitar crate and the real CLI modules; hand-rolled stateless DFS / explicit-state BFS explorers, scripted in-memory devices, vendored tokio with a blocking-pool gate for schedule exploration"},
         ],
         "checks": checks,
-        "not_applicable": NOT_APPLICABLE,
+        "not_applicable": NOT_APPLICABLE + [
+            {"property_id": p, "reason": "check not built yet (planned in DESIGN.md section 4); not claimed until its check is registered"}
+            for p in all_props() if p not in CHECKS and p not in [n["property_id"] for n in NOT_APPLICABLE]],
         "notes": "All checks rebuild the harness (and, where used, the bita binary) from /repo's working tree with hooks on before running. Exit 2 + MACHINERY-ERROR means the machinery failed, not a verdict.",
     }
     with open(os.path.join(VERIF, "MANIFEST.json"), "w") as f:
